@@ -341,6 +341,11 @@ def run(c, chk):
         else:
             chk.fail('R14.5', 'validcb2-missing:%s' % fname, c.where(fn), '%s() never consults the pre-set validation callback' % fname)
 
+    # ---- R14.9: "the stored value is the one it produced": what a parse callback returns is copied before anything of the
+    # option is released (the callback may hand back the option's own current string)
+    from . import c09 as _c09, c08 as _c08
+    _c09.copy_before_release(c, _c08.chk_proxy(chk, {'R9.6': 'R14.9'}), ex)
+
     # ---- R14.6 -----------------------------------------------------------------------------
     walker_template(c, chk, ex)
     callbacks_travel(c, chk)
